@@ -133,7 +133,9 @@ func c07HistRun(x *vmc.X, cfg vmc.Cfg) {
 	ctx := context.Background()
 	self := kid.Peer("0", 0)
 	provs := []peer.ID{kid.Peer("1", 0), kid.Peer("1", 1), self}[:c.nprov]
-	keys := [][]byte{[]byte("key-zero"), []byte("key-one"), []byte("key-two")}
+	// key 1 is a byte prefix of key 2, and its 5 bytes end on a base32 character boundary, so the datastore key of
+	// key 1 is a string prefix of the datastore key of key 2
+	keys := [][]byte{[]byte("key-zero"), []byte("key-o"), []byte("key-one")}
 	ps, err := pstoremem.NewPeerstore()
 	if err != nil {
 		x.Failf("C07/setup", "%v", err)
